@@ -181,6 +181,18 @@ def crash_kind(full):
     return "rc" + (m.group(1) if m else "?")
 
 
+FORMAT_FAMILY = ("string/format", "buffer/format", "buffer/format-at")   # one shared implementation (janet_buffer_format)
+
+
+def make_sig(fname, bad, tg):
+    """stable signature: function (or family), kind of disagreement, class of the minimal failing case"""
+    if bad == "crash":
+        tg = [t for t in tg if t not in ("alias", "frac", "nonfinite", "nil-elem")]
+    if fname in FORMAT_FAMILY and bad in ("crash", "value"):
+        fname = "format"
+    return ":".join([fname, bad] + tg)
+
+
 def classify(exp, status, text):
     """-> None if fine, else kind of disagreement"""
     kind, val = exp
@@ -265,7 +277,7 @@ class Runner:
                             if "janet internal error" not in text and "out of memory" not in text:
                                 text = rerun_single(v, item_text(x), v != "fast")
                             tg = [crash_kind(text)] + tg
-                        sig = ":".join([x[0], bad] + tg)
+                        sig = make_sig(x[0], bad, tg)
                         what = "%s [%s, part %s] %s: reference %s, observed %s" % (
                             item_text(x), v, part, bad,
                             "(no prediction)" if e[0] == "S" else (e[1] if e[0] == "R" else " or ".join(sorted(e[1] or ["E (any state)"]))),
